@@ -2,8 +2,8 @@ CONSTANTS
   NIFACE = 16
   SEED = 0
   HSEED = 17
-  DEPTH = 25
-  PER = 5
+  DEPTH = 30
+  PER = 8
 INIT Init
 NEXT Next
 INVARIANT Emit
